@@ -6,6 +6,7 @@ mod e2;
 mod e3;
 mod hashseed;
 mod indep;
+mod libgen;
 mod model;
 mod project;
 mod rng;
